@@ -511,6 +511,26 @@ def rule_attr_precision(ctx):
 # OPT: wire-neutral options never influence wire positions
 # ------------------------------------------------------------------------------------------------
 
+def _id_preserving(t):
+    """is every alternative of t either a raw name or the result of a normalizer guarded by `name == "ID"` returning
+    the raw name?  (shape: if(..=="ID".. ? raw : normalized))"""
+    tag = t[0]
+    if tag == 'join':
+        return all(_id_preserving(x) for x in t[1])
+    if tag in ('field', 'const', 'cproj', 'tproj', 'sel', 'absent', 'none', 'unit', 'rec', 'diverge'):
+        return True
+    if tag == 'if':
+        has_id_test = any(s_ == ('const', 'ID') for s_ in P.subterms(t[1]))
+        if has_id_test:
+            return _id_preserving(t[2]) if True else False
+        return _id_preserving(t[2]) and _id_preserving(t[3])
+    if tag == 'match':
+        return all(_id_preserving(a) for _, a in t[2])
+    if tag == 'orelse':
+        return _id_preserving(t[1]) and _id_preserving(t[2])
+    return False
+
+
 def _norm_id_fixed(ctx):
     """is every fn named like a type-name normalizer the identity on the literal "ID"? (see NORM-ID)"""
     from .facts import norm_path
@@ -548,7 +568,10 @@ def rule_opt(ctx):
             if not isinstance(t, tuple) or not t:
                 return t
             if t[0] == 'op' and t[1] in ('==', '!=') and len(t[2]) == 2 and ('const', 'ID') in t[2]:
-                return ('op', t[1], (('const', '<schema type name>'), ('const', 'ID')))
+                other = [x for x in t[2] if x != ('const', 'ID')]
+                if other and _id_preserving(other[0]):
+                    return ('op', t[1], (('const', '<schema type name>'), ('const', 'ID')))
+                return t
             if t[0] == 'join':
                 return P.join([rw(x) for x in t[1]])
             return tuple(rw(x) if isinstance(x, tuple) else x for x in t)
@@ -640,22 +663,27 @@ def _atoms_factory(assign):
     return atoms
 
 
-def _eval_conds(ctx, conds, q, assign):
-    """truth of a conjunction of leaf conditions for qualifier list q; raises Undecided"""
+def _eval_conds(ctx, conds, q, assign, free=None):
+    """truth of a conjunction of leaf conditions for qualifier list q.
+    Conditions that cannot be evaluated over (qualifiers, atoms) are collected in `free` (if given) and treated as
+    true — the caller decides what an extra, unknown condition means; without `free` they raise Undecided."""
     ev = Q.QEval(ctx.pv, q, _atoms_factory(assign))
     for c in conds:
-        if c[0] == 'if':
-            v = ev.ev(c[1])
-            if not isinstance(v, bool):
-                raise Q.Undecided('condition value')
-            if v != c[2]:
-                return False
-        elif c[0] == 'match':
-            s = ev.ev(c[1])
-            if not ev.pat_matches(c[2], s):
-                return False
-        elif c[0] == 'rep':
-            continue
+        try:
+            if c[0] == 'if':
+                v = ev.ev(c[1])
+                if not isinstance(v, bool):
+                    raise Q.Undecided('condition value')
+                if v != c[2]:
+                    return False
+            elif c[0] == 'match':
+                s = ev.ev(c[1])
+                if not ev.pat_matches(c[2], s):
+                    return False
+        except Q.Undecided:
+            if free is None:
+                raise
+            free.append(c)
     return True
 
 
@@ -714,8 +742,12 @@ def rule_skip_none(ctx):
                     wrong = None
                     for on in (True, False):
                         for q in lists:
-                            got = _eval_conds(ctx, a.rconds, q, {'opt:skip_serializing_none': on})
+                            free = []
+                            got = _eval_conds(ctx, a.rconds, q, {'opt:skip_serializing_none': on}, free)
                             want = on and (len(q) == 0 or q[0] != Q.REQ)
+                            if got and free:
+                                wrong = ('attachment additionally depends on %s' % conds_text(tuple(free))[:160], q)
+                                break
                             const_lists = [t for t in qts if t[0] == 'list']
                             if const_lists and len(qts) == len(const_lists):
                                 cl = [Q.REQ if x[1].endswith('Required') else Q.LIST for x in const_lists[0][1]]
